@@ -51,6 +51,9 @@ func TestC02(t *testing.T) {
 			cfg.ProtocolVersion = uint(v)
 			cfg.Plugins = vp.Set(p.Proto[strconv.Itoa(v)], v, []string{"kv"}, nil)
 		}
+		if p.Host.HandshakeOnly != nil {
+			cfg.ProtocolVersion = uint(*p.Host.HandshakeOnly)
+		}
 		if p.Host.Overlap != nil && p.Host.OverlapSetOf != nil {
 			cfg.ProtocolVersion = uint(*p.Host.Overlap)
 			cfg.Plugins = cfg.VersionedPlugins[*p.Host.OverlapSetOf]
